@@ -131,7 +131,7 @@ def c01_3(cx):
 # C01.1 every read records itself
 
 
-@ob("C01.1", ["C01", "C03"], "without the edge (or with another field's stamp) a later write never invalidates the reader", kind="MUSTCALL+FLOW")
+@ob("C01.1", ["C01"], "without the edge (or with another field's stamp) a later write never invalidates the reader", kind="MUSTCALL+FLOW")
 def c01_1(cx):
     """Data-returning reads report a tracked read with matching key, durability and revision on every path: input field, tracked field, function fetch, untracked reads; the ZalsaLocal reporters forward their arguments positionally to ActiveQuery."""
     # input field
@@ -200,7 +200,7 @@ def lits_fetch_hot():
     ]
 
 
-@ob("C01.4a", ["C01", "C03", "C05", "C12", "C23"], "returning a memo that is not verified for the current revision (or value-less, or provisional) hands out a stale/invalid result", kind="ONLYIF")
+@ob("C01.4a", ["C01", "C05", "C12", "C23"], "returning a memo that is not verified for the current revision (or value-less, or provisional) hands out a stale/invalid result", kind="ONLYIF")
 def c01_4a(cx):
     """fetch_hot returns Some(memo) only if memo.value.is_some() and shallow_verify_memo(memo).yes() and !memo.may_be_provisional(); the memo returned is the one that was checked."""
     b = cx.fn(F + r"fetch::<impl function::IngredientImpl<C>>::fetch_hot$")
@@ -209,7 +209,7 @@ def c01_4a(cx):
               [r"^Option::None\{\}$", r"from_residual"], "fetch_hot")
 
 
-@ob("C01.4b", ["C01", "C03", "C05", "C17", "C23"], "an old memo returned without verify_memo is a stale result; executing although verify_memo succeeded wastes a re-execution (C03)", kind="ONLYIF")
+@ob("C01.4b", ["C01", "C05", "C23"], also=["C03"], nec="an old memo returned without verify_memo is a stale result; executing although verify_memo succeeded wastes a re-execution (C03)", kind="ONLYIF")
 def c01_4b(cx):
     """fetch_cold returns the old memo only if old_memo.value.is_some() and old_memo.verify_memo(..); execute is reached only when there is no old memo, it has no value, or verify_memo is false (precision)."""
     b = cx.fn(F + r"fetch::<impl function::IngredientImpl<C>>::fetch_cold$")
@@ -222,11 +222,12 @@ def c01_4b(cx):
               [r"^Option::None\{\}$"], "fetch_cold")
     # precision: execute only if (no memo) or (no value) or (!verify)
     ex = cx.one(b.calls(F + r"execute::<impl function::IngredientImpl<C>>::execute$"), "execute call in fetch_cold")
-    cx.only_if_any(b, ex, [VariantIn(memo + r"$", {"None"}, desc="no old memo"), VariantIn(memo + r"(@Some\.0|\?)\.value$", {"None"}, desc="old memo has no value"),
+    with cx.only("C03"):
+      cx.only_if_any(b, ex, [VariantIn(memo + r"$", {"None"}, desc="no old memo"), VariantIn(memo + r"(@Some\.0|\?)\.value$", {"None"}, desc="old memo has no value"),
                            CallIs(MH + r"verify_memo$", False, [memo + r"(@Some\.0|\?)\.header$"], desc="!verify_memo")], "execute reached only if no memo / no value / !verify_memo")
 
 
-@ob("C01.4c", ["C01", "C02", "C03", "C04"], "Verified for a memo not verified in the current revision, or HigherDurability although an input of the memo's durability changed after verified_at, reuses a stale memo", kind="ONLYIF+FLOW")
+@ob("C01.4c", ["C01", "C02", "C04"], also=["C03"], nec="Verified for a memo not verified in the current revision, or HigherDurability although an input of the memo's durability changed after verified_at, reuses a stale memo", kind="ONLYIF+FLOW")
 def c01_4c(cx):
     """shallow_verify_memo returns Verified only if verified_at.load() == current_revision; shallow_verify_memo_cold returns HigherDurability only if last_changed_revision(self.revisions.durability) <= verified_at; ShallowUpdate::yes() is true only for Verified|HigherDurability."""
     b = cx.fn(MH + r"shallow_verify_memo$")
@@ -240,14 +241,15 @@ def c01_4c(cx):
     ret_cases(cx, c, [(r"^ShallowUpdate::HigherDurability\{\}$", [le], "HigherDurability"), (r"^ShallowUpdate::Verified\{\}$", [le], "Verified")], [r"^ShallowUpdate::No\{\}$"], "shallow_verify_memo_cold")
     # precision (C03): No only if last_changed > verified_at
     gt = Cmp(r"^zalsa::Zalsa::last_changed_revision\(\$2, \$1\.revisions\.durability\)$", ">", r"^\$4$", desc="last_changed > verified_at")
-    for s in cx.ret_sites(c, "No"):
-        cx.only_if(c, s, gt, "shallow_verify_memo_cold: No only if last_changed > verified_at (precision)")
+    with cx.only("C03"):
+        for s in cx.ret_sites(c, "No"):
+            cx.only_if(c, s, gt, "shallow_verify_memo_cold: No only if last_changed > verified_at (precision)")
     y = cx.fn(r"^function::maybe_changed_after::ShallowUpdate::yes$")
     cx.returns_only_if(y, True, VariantIn(r"^\$1$", {"Verified", "HigherDurability"}, desc="self is Verified|HigherDurability"))
     cx.returns_only_if(y, False, VariantIn(r"^\$1$", {"No"}, desc="self is No"))
 
 
-@ob("C01.4d", ["C01", "C03", "C12", "C20"], "verify_memo true without shallow+provisional validation or an Unchanged deep verification reuses a stale or abandoned-provisional memo", kind="ONLYIF")
+@ob("C01.4d", ["C01", "C12", "C20"], "verify_memo true without shallow+provisional validation or an Unchanged deep verification reuses a stale or abandoned-provisional memo", kind="ONLYIF")
 def c01_4d(cx):
     """verify_memo returns true only via (shallow.yes() and validate_may_be_provisional(..)) or deep_verify_memo(..).is_unchanged()."""
     b = cx.fn(MH + r"verify_memo$")
@@ -281,7 +283,7 @@ def c01_4d(cx):
             cx.only_if(v, s, same, "%s is consulted only in the same cancellation epoch" % callee)
 
 
-@ob("C01.4e", ["C01", "C03", "C04", "C10"], "Unchanged for an Assigned / DerivedUntracked / provisional memo skips a required re-execution", kind="ONLYIF+TABLE")
+@ob("C01.4e", ["C01", "C04", "C10"], also=["C03"], nec="Unchanged for an Assigned / DerivedUntracked / provisional memo skips a required re-execution", kind="ONLYIF+TABLE")
 def c01_4e(cx):
     """deep_verify_memo returns non-Changed only in the Derived arm, with !may_be_provisional and !(strategy==Panic and was_cycle_participant), as the result of deep_verify_edges(db, zalsa, &self.revisions, verified_at.load(), edges, key); mark_as_verified only if that result is_unchanged."""
     b = cx.fn(MH + r"deep_verify_memo$")
@@ -303,11 +305,12 @@ def c01_4e(cx):
     cx.sites(ch, 4, "VerifyResult::changed() sites in deep_verify_memo")
     prov = CallIs(r"MemoHeader::may_be_provisional$", True, [r"^\$1$"], desc="may_be_provisional()")
     part = CallIs(r"MemoHeader::was_cycle_participant$", True, [r"^\$1$"], desc="was_cycle_participant()")
-    for s in ch:
+    with cx.only("C03"):
+      for s in ch:
         cx.only_if_any(b, s, [prov, part, VariantIn(origin, {"Assigned"}), VariantIn(origin, {"DerivedUntracked"})], "Changed without walking edges only for provisional / Panic cycle participant / Assigned / DerivedUntracked (precision)")
 
 
-@ob("C01.5", ["C01", "C03", "C06", "C11"], "a later edge may exist only because an earlier one had its old value: verifying out of order, or against a newer revision than the memo's own verified_at, accepts stale memos", kind="ONLYIF+FLOW")
+@ob("C01.5", ["C01", "C06", "C11"], also=["C03"], nec="a later edge may exist only because an earlier one had its old value: verifying out of order, or against a newer revision than the memo's own verified_at, accepts stale memos", kind="ONLYIF+FLOW")
 def c01_5(cx):
     """deep_verify_edges iterates the stored edges forward, returns Changed as soon as an Input edge's maybe_changed_after(db, zalsa, old_verified_at) is Changed, never returns Changed for Output edges, marks Output edges validated, returns Unchanged when the loop completes."""
     b = cx.fn(r"^function::maybe_changed_after::deep_verify_edges$")
@@ -325,8 +328,9 @@ def c01_5(cx):
     res = r"^key::DatabaseKeyIndex::maybe_changed_after\("
     changed_in = VariantIn(res, {"Changed"}, desc="input_result is Changed")
     ch = cx.sites(b.calls(r"^function::maybe_changed_after::VerifyResult::changed$"), 1, "changed() in deep_verify_edges")
-    for s in ch:
-        cx.only_if(b, s, changed_in, "Changed only because an input edge reported Changed (precision)")
+    with cx.only("C03"):
+        for s in ch:
+            cx.only_if(b, s, changed_in, "Changed only because an input edge reported Changed (precision)")
     # soundness: after an input reports Changed the function returns Changed without looking further:
     # the loop back-edge / Unchanged exit is reached from the Input arm only via the Unchanged variant.
     eng = OnlyIf(cx.facts, b)
@@ -346,11 +350,12 @@ def c01_5(cx):
               [r"^function::maybe_changed_after::VerifyResult::changed\(\)$"], "deep_verify_edges")
 
 
-@ob("C01.6", ["C01", "C03", "C07"], "'>=' re-executes readers of unchanged fields (C03); '<'/'<=' or a missing comparison hides a write from its readers (C01)", kind="ONLYIF both directions")
+@ob("C01.6", ["C01", "C07"], also=["C03"], nec="'>=' re-executes readers of unchanged fields (C03); '<'/'<=' or a missing comparison hides a write from its readers (C01)", kind="ONLYIF both directions")
 def c01_6(cx):
     """Leaf maybe_changed_after: input field and tracked field report Changed iff stored revision > revision; interned iff stored generation > requested generation; function (hot / after verify / after re-execution) Changed if changed_at > revision; changed_if(b) is Changed iff b."""
     ci = cx.fn(r"^function::maybe_changed_after::VerifyResult::changed_if$")
-    cx.returns_only_if(ci, {"Changed"}, BoolIs(r"^\$1$", True))
+    with cx.only("C03"):
+        cx.returns_only_if(ci, {"Changed"}, BoolIs(r"^\$1$", True))
     cx.returns_only_if(ci, {"Unchanged"}, BoolIs(r"^\$1$", False))
     for path, stored in ((r"^<input::input_field::FieldIngredientImpl<C> as ingredient::Ingredient>::maybe_changed_after$", r"\.revisions\[\$1\.field_index\]$"),
                          (r"^<tracked_struct::tracked_field::FieldIngredientImpl<C> as ingredient::Ingredient>::maybe_changed_after$", r"load\(.*\.revisions\[\$1\.field_index\]\)$")):
@@ -360,7 +365,8 @@ def c01_6(cx):
         gt = Cmp(stored, ">", r"^\$5$", desc="stored revision > revision")
         le = Cmp(stored, "<=", r"^\$5$", desc="stored revision <= revision")
         op = c.node()["args"][0]
-        cx.check(eng.implies_op(op, ("bool", True), gt, c), "Changed only if stored revision > revision (precision)", c, {"origin": b.origin_op(op)}, key="changed=>gt")
+        with cx.only("C03"):
+            cx.check(eng.implies_op(op, ("bool", True), gt, c), "Changed only if stored revision > revision (precision)", c, {"origin": b.origin_op(op)}, key="changed=>gt")
         cx.check(eng.implies_op(op, ("bool", False), le, c), "Unchanged only if stored revision <= revision (soundness)", c, {"origin": b.origin_op(op)}, key="unchanged=>le")
         cx.flow(b, b.origin_local(0), [r"^function::maybe_changed_after::VerifyResult::changed_if\("], [], "result is changed_if(..)", c)
         # the value looked at belongs to the requested id
@@ -368,8 +374,9 @@ def c01_6(cx):
     b = cx.fn(r"^<interned::IngredientImpl<C> as ingredient::Ingredient>::maybe_changed_after$")
     gen_gt = Cmp(r"id::Id::generation\(.*metadata.*\.id\)$", ">", r"^id::Id::generation\(\$4\)$", desc="slot generation > requested generation")
     gen_le = Cmp(r"id::Id::generation\(.*metadata.*\.id\)$", "<=", r"^id::Id::generation\(\$4\)$", desc="slot generation <= requested generation")
-    for s in cx.sites(b.calls(r"VerifyResult::changed$"), 1, "changed() in interned maybe_changed_after"):
-        cx.only_if(b, s, gen_gt, "interned: Changed only if the slot was reused (generation increased)")
+    with cx.only("C03"):
+        for s in cx.sites(b.calls(r"VerifyResult::changed$"), 1, "changed() in interned maybe_changed_after"):
+            cx.only_if(b, s, gen_gt, "interned: Changed only if the slot was reused (generation increased)")
     for s in cx.sites(b.calls(r"VerifyResult::unchanged$"), 1, "unchanged() in interned maybe_changed_after"):
         cx.only_if(b, s, gen_le, "interned: Unchanged only if the generation did not increase")
     # function ingredient: hot / cold verified / after re-execution
@@ -380,8 +387,9 @@ def c01_6(cx):
         cx.only_if(hot, s, le, "hot: Unchanged only if changed_at <= revision")
         cx.only_if(hot, s, CallIs(r"ShallowUpdate::yes$", True), "hot: a verdict only for shallow-verified memos")
         cx.only_if(hot, s, CallIs(r"MemoHeader::may_be_provisional$", False, [r"^\$1$"]), "hot: a verdict only for final memos")
-    for s in cx.sites(hot.calls(r"VerifyResult::changed$"), 1, "changed in hot path"):
-        cx.only_if(hot, s, gt, "hot: Changed only if changed_at > revision (precision)")
+    with cx.only("C03"):
+        for s in cx.sites(hot.calls(r"VerifyResult::changed$"), 1, "changed in hot path"):
+            cx.only_if(hot, s, gt, "hot: Changed only if changed_at > revision (precision)")
     inner = cx.fn(F + r"maybe_changed_after::<impl function::IngredientImpl<C>>::maybe_changed_after_cold::inner$")
     oh = r"ErasedMemo::<'a>::header\(.*\)\.revisions\.changed_at$|header\(.*\)\.revisions\.changed_at$"
     for s in cx.sites(inner.calls(r"VerifyResult::unchanged_for_memo$"), 1, "unchanged_for_memo in cold inner"):
